@@ -115,10 +115,10 @@ pub fn build(rng: &mut Rng, tier: u32) -> Built {
         check: Box::new(move |r| {
             let mut v = vec![];
             if early.load(Ordering::SeqCst) > 0 {
-                v.push(format!("{} waits returned while another handle had not been dropped", early.load(Ordering::SeqCst)));
+                v.push(format!("early return: {} waits returned while another handle had not been dropped", early.load(Ordering::SeqCst)));
             }
             if r.deadlock.is_none() && !r.budget_exceeded && r.panics.is_empty() && waits_done.load(Ordering::SeqCst) != waits_planned {
-                v.push(format!("{} of {} waits returned", waits_done.load(Ordering::SeqCst), waits_planned));
+                v.push(format!("missing return: {} of {} waits returned", waits_done.load(Ordering::SeqCst), waits_planned));
             }
             v
         }),
